@@ -12,6 +12,7 @@ RICH = [0, -1, 2 ** 70, -10 ** 30, 0.1, -2.5e-7, 1e+20, 3.141592653589793, 5e-32
         [1, [2, [3, []]]], {'a': 1, 'z': {'y': [None, 'x']}, 'b': []}, [], {}, [0.5, 'x', None],
         # strings that spell JSON literals and number tokens (a text-level rewrite of the encoded form must not touch them)
         'NaN', 'SNR was NaN here', 'Infinity', 'gain -Infinity dB', 'null', 'true', 'false', '1e5', '-0', '[1, 2]', '{"a": 1}',
+        0.0, -0.0, [0.0, -0.0, 0.0, -0.0], {'z': -0.0, 'p': 0.0}, [-0.0],
         '    four spaces', 'trailing spaces    ', 'a,\n    b', ': colon, comma', {'NaN': 'Infinity', 'null': None}]
 
 
@@ -51,7 +52,7 @@ def ordered(v):
 def gen_ext(r, tier):
     case = SM.gen_subset_case(r, tier)
     # an affine whose entries binary32 (what a NIfTI header stores) cannot represent: the extension keeps its own, in binary64
-    aff = np.array([[2.2, 0.0, 0.1, -93.7], [0.0, -1.1, 0.3, 40.1], [0.05, 0.0, 3.3, -12.7], [0.0, 0.0, 0.0, 1.0]]) \
+    aff = np.array([[2.2, -0.0, 0.1, -93.7], [0.0, -1.1, 0.3, 40.1], [0.05, -0.0, 3.3, -12.7], [0.0, 0.0, 0.0, 1.0]]) \
         if r.random() < 0.6 else None
     ext = SM.build_parent(case, affine=aff)
     # replace values by rich ones, keeping counts; shuffle key names to non-sorted, unicode keys
